@@ -1916,8 +1916,15 @@ func (sgi *ShardGroupInfo) unmarshal(pb *internal.ShardGroupInfo) {
 	}
 	sgi.DeletedAt = UnmarshalTime(pb.GetDeletedAt())
 
+	// TruncatedAt is only encoded for truncated groups, so its presence means
+	// "truncated". A group truncated at the Unix epoch is encoded as 0, which
+	// UnmarshalTime would turn into the zero time, i.e. "not truncated".
 	if pb != nil && pb.TruncatedAt != nil {
-		sgi.TruncatedAt = UnmarshalTime(pb.GetTruncatedAt())
+		if i := pb.GetTruncatedAt(); i == 0 {
+			sgi.TruncatedAt = time.Unix(0, 0).UTC()
+		} else {
+			sgi.TruncatedAt = UnmarshalTime(i)
+		}
 	}
 
 	if len(pb.GetShards()) > 0 {
